@@ -41,7 +41,7 @@ static Plan gen_sched(const std::string &prop, const std::string &tier, uint64_t
 	uint64_t d = r.below(100);
 	std::string layer = d < (c14 ? 20u : 35u) ? "api" : "public";
 	p.set("layer", layer);
-	p.seti("pool", layer == "api" ? 1 + r.below(4) : (r.chance(1, 10) ? 0 : 1 + r.below(4)));
+	p.seti("pool", layer == "api" ? (r.chance(1, 10) ? 5 + r.below(4) : 1 + r.below(4)) : (r.chance(1, 10) ? 0 : r.chance(1, 10) ? 5 + r.below(4) : 1 + r.below(4)));
 	p.seti("shared", r.chance(3, 4) ? 1 : 0);
 	p.set("sched", sched_cfg_gen(r, layer == "api" ? 400 : 1500));
 	int ntask = 1 + (int)r.below(3);
@@ -59,6 +59,7 @@ static Plan gen_sched(const std::string &prop, const std::string &tier, uint64_t
 		ntask = 2 + (int)r.below(3);
 		p.seti("rd_comp", r.below(6));
 		p.seti("rd_verify", r.below(2));
+		p.seti("rd_enc", r.below(2));
 		gen_task_adds(p, r, 9, 10 + r.below(150), true, r.chance(1, 2) ? 60 : 200);
 		for (int t = 0; t < ntask; t++) {
 			p.op("task", { std::to_string(t), "reader" });
@@ -240,7 +241,13 @@ static RunResult exec_sched(const Plan &p)
 		Bytes last; bool any = false;
 		for (auto &kv : rd_adds) { if (any && mfmt::cmp(kv.first, last) <= 0) continue; e.push_back(kv); rmodel[kv.first] = kv.second; last = kv.first; any = true; }
 		std::string rp = dir + "/shared.mtbl";
-		if (!write_table(rp, e, (int)(p.geti("rd_comp", 0) % 6), 4, 1024)) { res.fail("INFRA", "write_table", "shared table"); return res; }
+		// rd_enc=1: the table comes from the independent encoder, so that the library's own code (one-time
+		// initialisation included) runs for the first time inside the client tasks when the process is fresh
+		if (p.geti("rd_enc", 0)) {
+			mfmt::EncOpts eo; eo.algo = (int)(p.geti("rd_comp", 0) % 6); eo.seed = p.seed * 31 + p.run; eo.max_block_entries = 6;
+			if (!write_file(rp, mfmt::encode(e, eo))) { res.fail("INFRA", "write_file", "shared table"); return res; }
+			res.probes["shared-table-from-independent-encoder"]++;
+		} else if (!write_table(rp, e, (int)(p.geti("rd_comp", 0) % 6), 4, 1024)) { res.fail("INFRA", "write_table", "shared table"); return res; }
 		mtbl_reader_options *ro = mtbl_reader_options_init();
 		mtbl_reader_options_set_verify_checksums(ro, p.geti("rd_verify", 0));
 		rd = mtbl_reader_init(rp.c_str(), ro);
@@ -258,7 +265,6 @@ static RunResult exec_sched(const Plan &p)
 		mkdir(k.tmpdir.c_str(), 0700);
 		k.rsrc = rd ? mtbl_reader_source(rd) : nullptr;
 		k.rmodel = &rmodel;
-		if (k.kind == "writer") write_task_file(k, k.refpath, nullptr, false);
 	}
 
 	// ---- the simulated part
@@ -280,6 +286,9 @@ static RunResult exec_sched(const Plan &p)
 	sim_sched_stats st; memset(&st, 0, sizeof st);
 	if (!real_threads) sim_sched_end(&st); else { st.steps = 100; st.switches = 10; st.preempts = 1; }
 	if (rd) mtbl_reader_destroy(&rd);
+	// the no-pool reference files are written only now: nothing of the library has run on the main thread
+	// before the tasks, so in a fresh process their first calls meet every lazily initialised global cold
+	for (size_t t = 0; t < MAXTASK; t++) if (used[t] && tasks[t].kind == "writer") write_task_file(tasks[t], tasks[t].refpath, nullptr, false);
 
 	res.sched_hash = st.choices_hash; res.steps = st.steps; res.abs_states = st.abs_states;
 	res.ev.u(st.choices_hash);
